@@ -1,7 +1,7 @@
 #!/usr/bin/env python3
 """Generates MANIFEST.json from the table below (single source of truth for the interface)."""
 import json
-HOOK_COMMITS = ["448eaea", "f23b98f"]  # filled in when hook commits exist in /repo
+HOOK_COMMITS = ["448eaea", "f23b98f", "7982710"]  # filled in when hook commits exist in /repo
 checks = {}
 def add(pid, level, text, note, technique, design_ref, thorough=True):
     checks[pid] = {
@@ -77,6 +77,11 @@ add("C12", "exploration",
 add("C13", "exploration",
     "Byte strings derived from accepted messages for verify, verify_rln_proof, verify_with_roots (both buffers) and recover_id_secret (both buffers): every truncation length of one message (enumerated) and generated truncations of others, inconsistent/huge declared signal lengths, random field content, random strings, single bit flips, trailing bytes, arbitrary root buffers, and every v+k*p alias of every public value; never a panic, true only for the canonical bytes of an accepted message (independent predicate), recovery output empty or one canonical element.",
     PIPE_NOTE, "mutation-based fuzzing from golden messages with an independent acceptance predicate (proptest; libFuzzer target planned for the thorough tier)", "DESIGN.md#c13")
+
+add("C16", "fault_enumeration",
+    "Generated histories over {set, delete, append, set_range, batch, set_metadata, flush, flush+drop+reopen} x storage configuration (cache size, flush period, mode, compression, path shape) x API surface (PmTree trait / RLN byte API) at depth 3..6, 10 (20 in thorough). No-fault run: every observation equals the ideal model after every step and after each reopen, and the reopened tree keeps behaving like the model. Fault enumeration: the history is re-run with the storage-adapter hook failing storage operation k+1, for every k the history performs (all positions when K <= 48 quick / 400 thorough, stratified otherwise), one-shot and sticky: the call in which the fault fires must return Err, and after flush+reopen all acknowledged leaves/leaf count/metadata are present. Crash points: a child process abort()s inside storage operation k; after reopening, everything acknowledged by the last successful flush is present.",
+    "Trusted: the ideal tree model; the hook fires at the adapter boundary (SledDB::put/put_batch/close), so error mapping inside those three functions below the hook and failures inside sled are not exercised; crash = process abort (not power loss). After a failed request only leaves, leaf count and metadata are constrained, not the root.",
+    "stateful model-based property testing with storage fault injection at every position and process-abort crash points", "DESIGN.md#c16")
 
 ALL = [f"C{i:02d}" for i in range(1, 21)]
 PENDING_REASON = "check not built yet in this revision of /verif (planned, see DESIGN.md section 2); not claimed until its machinery exists"
